@@ -58,6 +58,10 @@ type VStruct struct {
 	Name   string
 	Fields map[string]Val
 	id     int
+	// Concrete: a value with identity (scenario descriptors, maps, errors): comparable by key
+	Concrete bool
+	// Keys: for Name == "map", the key values in insertion order
+	Keys []Val
 }
 type VFunc struct {
 	Lit  *ast.FuncLit
@@ -212,6 +216,8 @@ type Walker struct {
 	InlineAllRuns bool
 	// FixRuns answers decisions of every new run (invariants of the input space).
 	FixRuns  func(dk, constRepr string) (int, bool)
+	// Concrete: scenario mode — maps, errors and nil-slices are modelled as concrete values.
+	Concrete bool
 	// ConcatLists: append(a, b...) of decidable lists is modelled element-wise.
 	ConcatLists bool
 	// ExternStructs: composite literals of library struct types become structured values too.
@@ -804,7 +810,14 @@ func (r *Run) assign(s *ast.AssignStmt, env *Env) {
 		case *ast.StarExpr:
 			// *p = v : ignored (not used by emitters for emitted text)
 		case *ast.IndexExpr:
-			// m[k] = v : maps/slices built by emitters are kept symbolic
+			// m[k] = v : maps/slices built by emitters are kept symbolic (concrete maps are updated)
+			if m, ok := r.eval(l.X, env).(*VStruct); ok && m.Name == "map" {
+				kv := r.eval(l.Index, env)
+				if _, had := m.Fields[kv.key()]; !had {
+					m.Keys = append(m.Keys, kv)
+				}
+				m.Fields[kv.key()] = v
+			}
 		}
 	}
 }
@@ -842,6 +855,17 @@ func (r *Run) evalMulti(e ast.Expr, env *Env, n int) []Val {
 		}
 		return out
 	case *ast.IndexExpr: // v, ok := m[k]
+		if m, ok := r.eval(x.X, env).(*VStruct); ok && m.Name == "map" {
+			kv := r.eval(x.Index, env)
+			if v, ok := m.Fields[kv.key()]; ok {
+				return []Val{v, VBool{B: true}}
+			}
+			var z Val = VNil{}
+			if tv, ok := r.info().Types[x]; ok && tv.Type != nil {
+				z = r.zero(tv.Type)
+			}
+			return []Val{z, VBool{B: false}}
+		}
 		v := r.eval(x, env)
 		return []Val{v, VSym{Key: "has(" + v.key() + ")", Typ: types.Typ[types.Bool]}}
 	case *ast.TypeAssertExpr:
@@ -918,6 +942,23 @@ func (r *Run) rangeStmt(s *ast.RangeStmt, env *Env) ctl {
 			}
 			elemT = types.Typ[types.Rune]
 		}
+	}
+	if m, ok := xv.(*VStruct); ok && m.Name == "map" {
+		for _, kv := range append([]Val{}, m.Keys...) {
+			e2 := newEnv(env)
+			if id, ok := s.Key.(*ast.Ident); ok && id.Name != "_" {
+				e2.define(info.ObjectOf(id), kv)
+			}
+			if id, ok := s.Value.(*ast.Ident); ok && id.Name != "_" {
+				e2.define(info.ObjectOf(id), m.Fields[kv.key()])
+			}
+			if c := r.block(s.Body.List, e2); c == ctlBreak {
+				break
+			} else if c == ctlReturn {
+				return c
+			}
+		}
+		return ctlNone
 	}
 	if sv, ok := xv.(VStr); ok {
 		if cs, ok := sv.isConst(); ok && cs != "" && len(cs) < 64 {
@@ -1243,6 +1284,8 @@ func isConcrete(v Val) bool {
 	switch x := v.(type) {
 	case VInt, VBool, VNil:
 		return true
+	case *VStruct:
+		return x.Concrete
 	case VStr:
 		_, ok := x.isConst()
 		return ok
@@ -1389,6 +1432,15 @@ func (r *Run) evalRaw(e ast.Expr, env *Env) Val {
 			if iv, ok := idx.(VInt); ok && int(iv.N) < len(l.Elems) && iv.N >= 0 {
 				return l.Elems[iv.N]
 			}
+		}
+		if m, ok := base.(*VStruct); ok && m.Name == "map" {
+			if v, ok := m.Fields[idx.key()]; ok {
+				return v
+			}
+			if tv, ok := info.Types[x]; ok && tv.Type != nil {
+				return r.zero(tv.Type)
+			}
+			return VNil{}
 		}
 		var t types.Type
 		if tv, ok := info.Types[x]; ok {
@@ -1595,6 +1647,19 @@ func (r *Run) composite(x *ast.CompositeLit, env *Env) Val {
 			}
 		}
 		return st
+	case *types.Map:
+		if r.W.Concrete {
+			r.structID++
+			m := &VStruct{Name: "map", Fields: map[string]Val{}, id: r.structID, Concrete: true}
+			for _, el := range x.Elts {
+				if kv, ok := el.(*ast.KeyValueExpr); ok {
+					k := r.eval(kv.Key, env)
+					m.Keys = append(m.Keys, k)
+					m.Fields[k.key()] = r.eval(kv.Value, env)
+				}
+			}
+			return m
+		}
 	case *types.Slice, *types.Array:
 		l := VList{Key: fmt.Sprintf("lit@%s", r.W.P.Pos(x.Pos())), Elems: []Val{}}
 		for _, el := range x.Elts {
@@ -1706,10 +1771,18 @@ func (r *Run) call(call *ast.CallExpr, env *Env) Val {
 				return out
 			case "Errorf":
 				args := r.args(call, env)
+				if r.W.Concrete {
+					r.structID++
+					return &VStruct{Name: "error", Fields: map[string]Val{"msg": constStr(argKeys(args))}, id: r.structID, Concrete: true}
+				}
 				return VSym{Key: "fmt.Errorf(" + argKeys(args) + ")", Typ: rt}
 			}
 		case "errors":
 			if fn.Name() == "New" {
+				if r.W.Concrete {
+					r.structID++
+					return &VStruct{Name: "error", Fields: map[string]Val{"msg": constStr(argKeys(r.args(call, env)))}, id: r.structID, Concrete: true}
+				}
 				return VSym{Key: "errors.New(" + argKeys(r.args(call, env)) + ")", Typ: rt}
 			}
 		case "strings":
@@ -1862,9 +1935,31 @@ func (r *Run) followInValidation(fn *types.Func) bool {
 	}
 	if rel == "internal/annotations" {
 		res := fn.Type().(*types.Signature).Results()
+		if r.W.Concrete && res.Len() > 0 && !r.W.readsOptionsDirect(fn) {
+			return true // scenario mode: every helper that is not a base accessor is interpreted
+		}
 		return res.Len() > 0 && isErrorType(res.At(res.Len()-1).Type())
 	}
 	return false
+}
+
+// readsOptionsDirect: fn itself calls Options()/GetExtension/HasExtension.
+func (w *Walker) readsOptionsDirect(fn *types.Func) bool {
+	decl := w.P.Decls[fn]
+	if decl == nil || decl.Body == nil {
+		return false
+	}
+	info := w.P.DeclPkg[fn].TypesInfo
+	res := false
+	ast.Inspect(decl.Body, func(n ast.Node) bool {
+		if call, ok := n.(*ast.CallExpr); ok {
+			if c := Callee(info, call); c != nil && (c.Name() == "Options" || c.Name() == "GetExtension" || c.Name() == "HasExtension") {
+				res = true
+			}
+		}
+		return !res
+	})
+	return res
 }
 
 // helperPkgs: packages whose string/bool case tables are followed. The
@@ -2044,6 +2139,10 @@ func (r *Run) builtin(name string, call *ast.CallExpr, env *Env, rt types.Type) 
 			return VSym{Key: "len(" + x.key() + ")", Typ: rt}
 		case VNil:
 			return VInt{N: 0}
+		case *VStruct:
+			if x.Name == "map" {
+				return VInt{N: int64(len(x.Keys))}
+			}
 		case VList:
 			if x.Elems != nil {
 				return VInt{N: int64(len(x.Elems))}
@@ -2104,6 +2203,11 @@ func (r *Run) builtin(name string, call *ast.CallExpr, env *Env, rt types.Type) 
 				return VList{Key: "concat", Elems: append(append([]Val{}, base...), els...)}
 			}
 		}
+		if r.W.Concrete && !call.Ellipsis.IsValid() && len(args) > 1 {
+			if _, isNil := args[0].(VNil); isNil {
+				return VList{Key: "list", Elems: append([]Val{}, args[1:]...)}
+			}
+		}
 		// append to a known list of known elements stays known
 		if l, ok := args[0].(VList); ok && l.Elems != nil && !call.Ellipsis.IsValid() {
 			nl := VList{Key: l.Key, Elems: append(append([]Val{}, l.Elems...), args[1:]...)}
@@ -2111,12 +2215,35 @@ func (r *Run) builtin(name string, call *ast.CallExpr, env *Env, rt types.Type) 
 		}
 		return VSym{Key: "append(" + argKeys(args) + ")", Typ: rt}
 	case "make", "new":
+		if r.W.Concrete && name == "make" && rt != nil {
+			switch rt.Underlying().(type) {
+			case *types.Map:
+				r.structID++
+				return &VStruct{Name: "map", Fields: map[string]Val{}, id: r.structID, Concrete: true}
+			case *types.Slice:
+				return VList{Key: "list", Elems: []Val{}}
+			}
+		}
 		return VSym{Key: fmt.Sprintf("%s@%s", name, r.W.P.Pos(call.Pos())), Typ: rt}
 	case "panic":
 		r.Aborted = r.W.P.Pos(call.Pos())
 		return VNil{}
 	case "delete", "print", "println", "copy", "clear":
-		r.args(call, env)
+		args := r.args(call, env)
+		if name == "delete" && len(args) == 2 {
+			if m, ok := args[0].(*VStruct); ok && m.Name == "map" {
+				k := args[1].key()
+				if _, ok := m.Fields[k]; ok {
+					delete(m.Fields, k)
+					for i, kv := range m.Keys {
+						if kv.key() == k {
+							m.Keys = append(m.Keys[:i:i], m.Keys[i+1:]...)
+							break
+						}
+					}
+				}
+			}
+		}
 		return VNil{}
 	}
 	return VSym{Key: name + "(" + argKeys(r.args(call, env)) + ")", Typ: rt}
